@@ -158,6 +158,12 @@ pub trait CartState {
   fn get_ram_override(&self, addr: u16) -> Option<u8> {
     None
   }
+
+  /// Raw controller registers: (rom bank, ram bank, ram enabled, mode)
+  #[cfg(feature = "verif")]
+  fn verif_regs(&self) -> (usize, usize, bool, bool) {
+    (0, 0, false, false)
+  }
 }
 
 pub struct NullCartState {
@@ -232,6 +238,11 @@ impl CartState for MBC1CartState {
       Some(0xff)
     }
   }
+
+  #[cfg(feature = "verif")]
+  fn verif_regs(&self) -> (usize, usize, bool, bool) {
+    (self.rom_bank, self.ram_bank, self.ram_enabled, self.select_ram)
+  }
 }
 
 pub struct MBC3CartState {
@@ -277,5 +288,10 @@ impl CartState for MBC3CartState {
 
   fn get_ram_bank(&self) -> usize {
     self.ram_bank
+  }
+
+  #[cfg(feature = "verif")]
+  fn verif_regs(&self) -> (usize, usize, bool, bool) {
+    (self.rom_bank, self.ram_bank, self.ram_enabled, false)
   }
 }
